@@ -67,6 +67,7 @@ def gen_project(rng, idx, W, min_occ):
     for ri, r in enumerate(runs):
         for oi, fi in enumerate(r["place_files"]):
             per_file[fi].append((ri, oi))
+    periodic = []
     suppress_choice = {}
     for ri, r in enumerate(runs):
         if rng.random() < 0.2 and r["family"] == "py" and r["M"] >= 3:
@@ -123,6 +124,18 @@ def gen_project(rng, idx, W, min_occ):
                     fb.add(ind + stmt(fb.lang, fresh()))
             for _ in range(rng.randint(1, 2)):
                 fb.add(ind + stmt(fb.lang, fresh()))
+            if rng.random() < 0.12:
+                # periodic region: one statement (or an A B pattern) repeated back to back -> windows overlap themselves.
+                # The number of 'distinct, non-overlapping places' is judged by the soundness oracle only.
+                a, b2 = stmt(fb.lang, fresh()), stmt(fb.lang, fresh())
+                reps = rng.randint(2, 7)
+                first = len(fb.lines) + 1
+                for k in range(reps):
+                    fb.add(ind + a)
+                    if rng.random() < 0.5 and False:
+                        fb.add(ind + b2)
+                periodic.append([names[fi], first, len(fb.lines)])
+                fb.add(ind + stmt(fb.lang, fresh()))
             fb.add("%sreturn alpha + tail_%d%s" % (ind, fresh(), "" if py else ";"))
             if not py:
                 fb.add("}")
@@ -146,6 +159,8 @@ def gen_project(rng, idx, W, min_occ):
             files[name] = "\n".join(lines) + "\n"
             r["places"].append([name, first, last])
             r["M"] += 1
+    if periodic:
+        runs.append({"K": 0, "M": 0, "family": "periodic", "ids": [], "place_files": [], "places": periodic, "suppressed": [], "periodic": True})
     return files, runs
 
 
@@ -257,7 +272,7 @@ def run(ctx):
             viols.append({"file": fp, "line": line, "last": last, "n": n, "occ": occ, "locs": locs, "block": block, "lang": lang})
         ctx.count("violations_checked", len(viols))
         if case["runs"]:
-            ctx.nontrivial([W, mo, sorted((r["K"], r["M"], r["family"]) for r in case["runs"])])
+            ctx.nontrivial([W, mo, sorted((r["K"], r["M"], r["family"]) for r in case["runs"] if not r.get("periodic"))])
         else:
             ctx.count("duplicate_free_projects")
         # soundness + mutuality
@@ -283,7 +298,15 @@ def run(ctx):
                     case["i"], vi["file"], vi["line"], vi["occ"], len(vi["locs"])), rep, files)
         # completeness / silence
         planted_ranges = []
+        for vi in viols:
+            ctx.count("min_occurrences_checked")
+            if vi["occ"] < mo:
+                ctx.discrepancy("below-min-occurrences", "case %d: %s:%d reported with %d occurrence(s) although min_occurrences is %d" % (case["i"], vi["file"], vi["line"], vi["occ"], mo), rep, files)
         for r in case["runs"]:
+            if r.get("periodic"):
+                planted_ranges += [tuple(p) for p in r["places"]]
+                ctx.count("periodic_regions", len(r["places"]))
+                continue
             should = r["K"] >= W and r["M"] >= mo
             for pi, (pf, a, b) in enumerate(r["places"]):
                 planted_ranges.append((pf, a, b))
